@@ -498,7 +498,12 @@ func runFile(scratch string, lines [][]byte, v2 bool, serial, preSerial uint32, 
 				continue
 			}
 			if _, err := codec.DecodeLn(append([]byte{}, t...)); err != nil {
-				return
+				// the preprocessor decodes only % and Z lines (an error there ends its run); a line of
+				// another type that does not decode is written through and does not touch the accumulator
+				if t[0] == '%' || t[0] == 'Z' {
+					return
+				}
+				continue
 			}
 		}
 		m, err := codec.Acc.MarshalMap()
